@@ -46,6 +46,7 @@ pub fn gen_config(profile: &str, rng: &mut Rng, tier: Tier) -> Config {
 		}
 		nodes.push(nc);
 	}
+	let onchain_profile = profile != "offchain";
 	let mut chans = Vec::new();
 	for a in 0..n_nodes - 1 {
 		let per_link = match profile {
@@ -53,8 +54,12 @@ pub fn gen_config(profile: &str, rng: &mut Rng, tier: Tier) -> Config {
 			_ => r.range(1, 2),
 		};
 		for _ in 0..per_link {
-			let value_sat = *r.pick(&[100_000u64, 300_000, 1_000_000, 5_000_000]);
-			let push_msat = match r.below(4) {
+			let value_sat = if onchain_profile {
+				*r.pick(&[500_000u64, 1_000_000, 3_000_000])
+			} else {
+				*r.pick(&[100_000u64, 300_000, 1_000_000, 5_000_000])
+			};
+			let push_msat = match if onchain_profile { 1 + r.below(3) } else { r.below(4) } {
 				0 => 0,
 				1 => value_sat * 1000 / 2,
 				2 => value_sat * 1000 / 10,
@@ -107,6 +112,10 @@ pub fn gen_config(profile: &str, rng: &mut Rng, tier: Tier) -> Config {
 			w(&mut weights, "Crash", *r.pick(&[0, 1, 2]));
 			w(&mut weights, "ArmCrash", *r.pick(&[0, 1, 2]));
 			w(&mut weights, "Restart", 8);
+			w(&mut weights, "Mine", *r.pick(&[0, 1, 2]));
+			w(&mut weights, "Relay", 2);
+			w(&mut weights, "ForceClose", if r.chance(1, 3) { 1 } else { 0 });
+			w(&mut weights, "SetFee", 0);
 		},
 		_ => {},
 	}
@@ -209,7 +218,15 @@ fn gen_send(wd: &World, rng: &mut Rng) -> Option<Action> {
 		}
 	}
 	wd.mgr(to)?;
-	let mut amt = pick_amount(wd, rng, from, c1);
+	let mut amt = if wd.strict_offchain {
+		pick_amount(wd, rng, from, c1)
+	} else if rng.chance(1, 5) {
+		// tiny: may be dust on a commitment (exempt from the wealth oracle)
+		rng.range(1, 5_000_000)
+	} else {
+		// big: unmistakable if lost, far above any on-chain fee
+		rng.range(20_000_000, 60_000_000)
+	};
 	if path.len() == 2 {
 		// pick_amount is about the first hop; leave room for the forwarding fee
 		let fee = wd.nodes[p1].cfg.fee_base_msat as u64 + 1 + amt * wd.nodes[p1].cfg.fee_prop_millionths as u64 / 1_000_000;
@@ -296,6 +313,14 @@ pub fn next_action(wd: &World, rng: &mut Rng) -> Option<Action> {
 	}
 	if !nonempty.is_empty() {
 		kinds.push(("Deliver", weight(cfg, "Deliver")));
+	}
+	// T1/T3: the random phase may move the chain only by a bounded number of blocks, so that no
+	// HTLC comes near its expiry while a node is down or messages are delayed
+	if wd.out.sim_blocks < 18 {
+		kinds.push(("Mine", weight(cfg, "Mine")));
+	}
+	if live.iter().any(|i| wd.nodes[*i].broadcaster.len() > 0) {
+		kinds.push(("Relay", weight(cfg, "Relay")));
 	}
 	if !down.is_empty() {
 		kinds.push(("Reconnect", weight(cfg, "Reconnect")));
@@ -384,6 +409,11 @@ pub fn next_action(wd: &World, rng: &mut Rng) -> Option<Action> {
 			Action::CompleteMon { n: i, chan: c, which: rng.below(3) as u8 }
 		},
 		"Restart" => Action::Restart { n: *rng.pick(&dead), style: 0 },
+		"Mine" => Action::Mine { count: rng.range(1, 3) as u32 },
+		"Relay" => {
+			let c: Vec<usize> = live.iter().cloned().filter(|i| wd.nodes[*i].broadcaster.len() > 0).collect();
+			Action::Relay { n: *rng.pick(&c) }
+		},
 		_ => return None,
 	})
 }
